@@ -85,6 +85,8 @@ def render_call(d):
             'let xx = json!({"inner": match &inner { Ok(v) => json!({"ok": true, "v": [v.enc()]}), Err(_) => json!({"ok": false, "v": []}) }}); '
             '(guard(|| match s.parse::<%s>() { Ok(t) => ok(t.into_inner().enc()), Err(e) => { let msg = e.to_string(); %s } }), xx) }' % (T, m))
     arms.extend(observer_arms(d, T, validated))
+    if d["vmode"] == "std":
+        arms.append(msgs_arm(d, T))
     arms.append('_ => (json!({"k": "noep"}), Value::Null)')
     return "pub fn call(ep: &str, inp: &Value) -> (Value, Value) {\n    match ep {\n        %s\n    }\n}\n" % ",\n        ".join(arms)
 
@@ -93,6 +95,30 @@ def str_env_expr(d, var):
     n_custom = [s for s in d["san"] if s["k"] == "with"]
     customs = ", ".join("(%s) as fn(String) -> String" % san_closure(d, s) for s in n_custom)
     return "str_env(%s, %d, &[%s])" % (var, max(1, len(d["san"])), customs)
+
+
+def msgs_arm(d, T):
+    """C16: Display text of every error variant, the Debug rendering of its bound, and the texts that embed it."""
+    from .names import VARIANT
+    from .render_value import val_src
+    fam = d["fam"]
+    items = []
+    nconst = 0
+    for r in d["val"]:
+        v = VARIANT[r["k"]]
+        if r["k"] in ("greater", "greater_or_equal", "less", "less_or_equal", "len_char_min", "len_char_max"):
+            if r.get("sp", "lit") == "expr":
+                nconst += 1
+                b = 'format!("{:#?}", B%d)' % nconst
+            else:
+                b = 'format!("{:#?}", %s)' % val_src(d, r["b"])
+        else:
+            b = "String::new()"
+        pm = "String::new()"
+        if fam != "string" and has(d, "FromStr"):
+            pm = "NtParseError::Validate(NtError::%s).to_string()" % v
+        items.append('json!({"variant": "%s", "text": NtError::%s.to_string(), "bound_dbg": %s, "parse_msg": %s})' % (v, v, b, pm))
+    return '"msgs" => (json!({"k": "obs", "msgs": [%s]}), Value::Null)' % ", ".join(items)
 
 
 def observer_arms(d, T, validated):
@@ -191,6 +217,15 @@ def observer_arms(d, T, validated):
         '"cmp" => { let x: Inner = <Inner as Dec>::dec(&inp[0]); let y: Inner = <Inner as Dec>::dec(&inp[1]); '
         'match (mk(x), mk(y)) { (Some(ta), Some(tb)) => { let a: Inner = ta.clone().into_inner(); let b: Inner = tb.clone().into_inner(); '
         '(guard(|| json!({"k": "obs", %s})), json!({"a": a.enc(), "b": b.enc()})) }, _ => (json!({"k": "skip"}), Value::Null) } }' % ", ".join(cf))
+    # ---- sort (C12): slice::sort and BTreeSet insertion of obtained values must not panic and must order them
+    if has(d, "Ord") and has(d, "Eq"):
+        arms.append(
+            '"sort" => { let xs: Vec<Inner> = <Vec<Inner> as Dec>::dec(inp); let ts: Vec<%s> = xs.into_iter().filter_map(mk).collect(); '
+            'let made: Vec<Inner> = ts.iter().map(|t| t.clone().into_inner()).collect(); '
+            '(guard(|| { let mut v = ts.clone(); v.sort(); let set: ::std::collections::BTreeSet<%s> = ts.iter().cloned().collect(); '
+            'let mx = ts.iter().cloned().max().map(|t| t.into_inner()); '
+            'json!({"k": "ok", "sorted": v.into_iter().map(|t| t.into_inner()).collect::<Vec<_>>().enc(), '
+            '"set": set.into_iter().map(|t| t.into_inner()).collect::<Vec<_>>().enc(), "max": mx.enc()}) }), json!({"made": made.enc()})) }' % (T, T))
     # ---- ser / deser
     if serde_ok:
         arms.append(
